@@ -15,7 +15,7 @@ Variable ver : name -> name.          (* the hash announced for each name *)
    announced with one hash (D), every file in the final directory hashes to the
    hash announced for its name, and that hash is the one in its log record. *)
 Theorem C01_delivered_valid_on_D : forall ops t body,
-  Forall (op_in_D ver) ops ->
+  Forall (op_in_D H ver) ops ->
   In (t, body) (finals (srun H init_stage ops)) ->
   exists r, In r (rlog (srun H init_stage ops)) /\ rec_target r = t /\
             H body = l_hash r /\ l_hash r = ver (l_name r).
@@ -25,7 +25,7 @@ Proof. exact (delivered_valid_on_D H ver). Qed.
 Corollary C01_byte_identical_on_D : forall (content : name -> list Z) ops t body,
   (forall n, H (content n) = ver n) ->
   (forall a b, H a = H b -> a = b) ->            (* md5_collision_free, a premise *)
-  Forall (op_in_D ver) ops ->
+  Forall (op_in_D H ver) ops ->
   In (t, body) (finals (srun H init_stage ops)) ->
   exists r, In r (rlog (srun H init_stage ops)) /\ rec_target r = t /\ body = content (l_name r).
 Proof.
